@@ -192,9 +192,11 @@ def _flatten(segs):
 SAMPLE_WORD = "ctx"
 
 
-def _sample(slot, secret=False):
+def _sample(slot, secret=False, digit="7"):
     """a concrete representative for a context slot"""
     chars = slot.chars
+    if digit != "7" and chars <= frozenset(range(48, 58)) and (slot.hi is None or slot.hi >= len(digit)) and slot.lo <= len(digit) and slot.lo != slot.hi:
+        return digit
     n = max(slot.lo, 1)
     if slot.hi is not None:
         n = min(max(n, 1), slot.hi)
@@ -216,6 +218,7 @@ class Form:
 
     def __init__(self, pat_index, group_index, pattern, segs, secret, choice):
         self.pat_index, self.group_index, self.pattern, self.segs, self.secret, self.choice = pat_index, group_index, pattern, segs, secret, choice
+        self.digit = "7"     # representative for variable-length digit context slots ("42" in the multi-digit variants)
 
     def text(self, secret_text, ctx=None):
         out = []
@@ -225,13 +228,13 @@ class Form:
             elif i == self.secret:
                 out.append(secret_text)
             else:
-                out.append(_sample(s))
+                out.append(_sample(s, digit=self.digit))
         return "".join(out)
 
     def parts(self):
         """(prefix text, secret Slot, suffix text)"""
-        pre = "".join(s if isinstance(s, str) else _sample(s) for s in self.segs[:self.secret])
-        suf = "".join(s if isinstance(s, str) else _sample(s) for s in self.segs[self.secret + 1:])
+        pre = "".join(s if isinstance(s, str) else _sample(s, digit=self.digit) for s in self.segs[:self.secret])
+        suf = "".join(s if isinstance(s, str) else _sample(s, digit=self.digit) for s in self.segs[self.secret + 1:])
         return pre, self.segs[self.secret], suf
 
     def key(self):
@@ -285,6 +288,14 @@ def forms_for_pattern(pat_index, regex_text, secret_group, flags=0, cap=40):
         out.append(f)
         if len(out) >= cap:
             break
+    # multi-digit variants: every form with a variable-length digit context slot also with a two-digit representative
+    for f in list(out):
+        g = Form(f.pat_index, f.group_index, f.pattern, f.segs, f.secret, dict(f.choice, digits="42"))
+        g.digit = "42"
+        k = g.key()
+        if k not in seen:
+            seen.add(k)
+            out.append(g)
     return out
 
 
